@@ -6,10 +6,13 @@ wt=/tmp/mut_$id
 cd $wt || exit 2
 echo "== $id: demo WITH change"
 nice cargo test --offline "$@" --test zz_demo 2>&1 | grep -E "^test result|^test .*(FAILED|ok)$" | tail -12
-git stash -q
+# (not `git stash`: the stash stack is shared by all worktrees of the repository)
+git diff -- src > /tmp/mut_${id}_out/confirm_patch.diff
+git apply -R /tmp/mut_${id}_out/confirm_patch.diff
 echo "== $id: demo WITHOUT change"
 nice cargo test --offline "$@" --test zz_demo 2>&1 | grep -E "^test result" | tail -3
-git stash pop -q
+git apply /tmp/mut_${id}_out/confirm_patch.diff
+cmp -s /tmp/mut_${id}_out/confirm_patch.diff /tmp/mut_${id}_out/patch.diff || echo "NOTE: worktree change differs from the delivered patch.diff (whitespace / paths?)"
 echo "== $id: baseline suite WITH change (demo moved away)"
 mv tests/zz_demo.rs /tmp/mut_${id}_out/zz_demo.rs.keep
 nice cargo test --workspace --no-fail-fast --offline 2>&1 | grep -E "^test .* \.\.\. (ok|FAILED)" | sed 's/ \.\.\. / /' > /tmp/mut_${id}_out/suite_confirm.txt
